@@ -8,6 +8,7 @@ import (
 	"go/types"
 	"net/textproto"
 	"regexp"
+	"sort"
 	"strconv"
 	"strings"
 
@@ -1141,7 +1142,7 @@ func (i *Interp) assert(cv value, msgv value) {
 			i.unsupported("assert failed during setup: %s", msg)
 		}
 		if i.solver.Check() == Sat {
-			i.ps.violations = append(i.ps.violations, Violation{Kind: "assert", Msg: msg, Pos: i.where(), Witness: i.witness(i.job)})
+			i.ps.violations = append(i.ps.violations, Violation{Kind: "assert", Msg: msg, Pos: i.where(), Detail: i.allocDetail(), Witness: i.witness(i.job)})
 		} else {
 			i.ps.inconcl = append(i.ps.inconcl, "assert false on path without model: "+msg)
 		}
@@ -1156,7 +1157,7 @@ func (i *Interp) assert(cv value, msgv value) {
 		i.solver.Assert(neg)
 		r := i.solver.Check()
 		if r == Sat {
-			i.ps.violations = append(i.ps.violations, Violation{Kind: "assert", Msg: msg, Pos: i.where(), Witness: i.witness(i.job)})
+			i.ps.violations = append(i.ps.violations, Violation{Kind: "assert", Msg: msg, Pos: i.where(), Detail: i.allocDetail(), Witness: i.witness(i.job)})
 		} else if r == Unknown {
 			i.ps.inconcl = append(i.ps.inconcl, "solver unknown on assertion: "+msg)
 		}
@@ -1172,4 +1173,21 @@ func (i *Interp) assert(cv value, msgv value) {
 		}
 		i.assertPC(c)
 	}
+}
+
+// allocDetail lists the distinct allocation sites recorded on this path (empty when allocation tracking is off).
+func (i *Interp) allocDetail() string {
+	if !i.allocTrack || len(i.allocLog) == 0 {
+		return ""
+	}
+	seen := map[string]bool{}
+	var out []string
+	for _, s := range i.allocLog {
+		if !seen[s] {
+			seen[s] = true
+			out = append(out, s)
+		}
+	}
+	sort.Strings(out)
+	return strings.Join(out, "; ")
 }
